@@ -507,5 +507,23 @@ theorem edgesL_restrict (keep : Acc) (p : Nat) : ∀ cs : List T,
         simp [pedgesL, List.filter_cons, ha', h1, h2, eview, hh]
 end
 
+/-! ### a tree without unary nodes is a fixpoint of suppression -/
+mutual
+theorem sup_of_noUnary : ∀ t : T, NoUnary t → T.sup t = t
+  | .node i x l s cs, h => by
+      simp only [NoUnary] at h
+      have hl := supL_of_noUnary cs h.2
+      simp only [T.sup, hl]
+      match cs, h.1 with
+      | [], _ => rfl
+      | [c], h1 => simp at h1
+      | c1 :: c2 :: r, _ => rfl
+theorem supL_of_noUnary : ∀ cs : List T, NoUnaryL cs → T.supL cs = cs
+  | [], _ => rfl
+  | c :: cs, h => by
+      simp only [NoUnaryL] at h
+      simp only [T.supL, sup_of_noUnary c h.1, supL_of_noUnary cs h.2]
+end
+
 end Aux
 end DendroModel.C08
